@@ -15,6 +15,8 @@ struct Vals {
     s0: usize,
     floats: Vec<f64>,
     f0: usize,
+    /// 0 generic values, 1 exact identity, 2 identity written with negative zeros
+    pose_kind: usize,
 }
 impl Vals {
     fn s(&self, field: usize) -> String {
@@ -97,7 +99,11 @@ fn build(has: &dyn Fn(usize) -> bool, vals: &Vals, img_kind: usize, xml_mode: u8
     fl!(mm.pressure);
     let f = next();
     if has(f) {
-        mm.pose = Some(m::Pose { rot: [vals.f(f), vals.f(f + 1), vals.f(f + 2), vals.f(f + 3)], trans: [vals.f(f + 4), vals.f(f + 5), vals.f(f + 6)] });
+        mm.pose = Some(match vals.pose_kind {
+            1 => m::Pose::default(),
+            2 => m::Pose { rot: [1.0, -0.0, 0.0, -0.0], trans: [-0.0, 0.0, -0.0] },
+            _ => m::Pose { rot: [vals.f(f), vals.f(f + 1), vals.f(f + 2), vals.f(f + 3)], trans: [vals.f(f + 4), vals.f(f + 5), vals.f(f + 6)] },
+        });
     }
     let f = next();
     if has(f) {
@@ -133,7 +139,11 @@ fn build(has: &dyn Fn(usize) -> bool, vals: &Vals, img_kind: usize, xml_mode: u8
     st!(img.sensor_serial);
     let f = next();
     if has(f) {
-        img.pose = Some(m::Pose { rot: [vals.f(f), 0.0, -0.0, 1.0], trans: [vals.f(f + 1), vals.f(f + 2), vals.f(f + 3)] });
+        img.pose = Some(match vals.pose_kind {
+            1 => m::Pose::default(),
+            2 => m::Pose { rot: [1.0, 0.0, -0.0, 0.0], trans: [0.0, -0.0, 0.0] },
+            _ => m::Pose { rot: [vals.f(f), 0.0, -0.0, 1.0], trans: [vals.f(f + 1), vals.f(f + 2), vals.f(f + 3)] },
+        });
     }
     let f = next();
     if has(f) {
@@ -166,13 +176,13 @@ pub const N_FIELDS: usize = 34;
 
 /// all fields present, strings taken from `strings` starting at `s0`
 pub fn build_with(strings: &[String], s0: usize, img_kind: usize) -> Program {
-    let vals = Vals { strings: strings.to_vec(), s0, floats: vec![1.5, -0.0, f64::NAN, 1e300, f64::NEG_INFINITY], f0: s0 };
+    let vals = Vals { strings: strings.to_vec(), s0, floats: vec![1.5, -0.0, f64::NAN, 1e300, f64::NEG_INFINITY], f0: s0, pose_kind: s0 % 3 };
     build(&|_| true, &vals, img_kind, 0)
 }
 
 /// a program with one cloud and one image using plain values (used as a base document elsewhere)
 pub fn build_public(has: &dyn Fn(usize) -> bool, img_kind: usize) -> Program {
-    let vals = Vals { strings: vec!["plain".into(), "a&b".into(), "two words".into()], s0: 0, floats: vec![1.5, -2.25, 1e-3, 1234.5], f0: 0 };
+    let vals = Vals { strings: vec!["plain".into(), "a&b".into(), "two words".into()], s0: 0, floats: vec![1.5, -2.25, 1e-3, 1234.5], f0: 0, pose_kind: 0 };
     build(has, &vals, img_kind, 0)
 }
 
@@ -223,7 +233,8 @@ pub fn lattice(ctx: &Ctx) {
     let kind = ctx.pick("image-kind", 5);
     let xml_mode = ctx.pick("xml-mode", 3) as u8;
     let toggles: Vec<bool> = (0..N_FIELDS).map(|_| ctx.flag("toggle-field")).collect();
-    let vals = Vals { strings: vec!["plain".into(), "a&b<c>".into(), "x\ny".into()], s0: 0, floats: vec![1.5, -0.0, 1e-300, 12345.678], f0: 0 };
+    let pose_kind = ctx.choose("pose-kind", 3);
+    let vals = Vals { strings: vec!["plain".into(), "a&b<c>".into(), "x\ny".into()], s0: 0, floats: vec![1.5, -0.0, 1e-300, 12345.678], f0: 0, pose_kind };
     let p = build(&|f| base ^ toggles.get(f).copied().unwrap_or(false), &vals, kind, xml_mode);
     if judge(ctx, &p) {
         ctx.nontrivial();
@@ -234,7 +245,7 @@ pub fn lattice(ctx: &Ctx) {
 pub fn strings(ctx: &Ctx) {
     let strings = cat::strings();
     let s0 = ctx.pick("string", strings.len());
-    let vals = Vals { strings, s0, floats: vec![0.5], f0: 0 };
+    let vals = Vals { strings, s0, floats: vec![0.5], f0: 0, pose_kind: 0 };
     let p = build(&|_| true, &vals, 4, 0);
     if judge(ctx, &p) {
         ctx.nontrivial();
@@ -246,7 +257,7 @@ pub fn floats(ctx: &Ctx) {
     let floats = float_catalogue(ctx.tier_thorough);
     let f0 = ctx.pick("float", floats.len());
     let kind = 1 + ctx.pick("projection", 3);
-    let vals = Vals { strings: vec!["s".into()], s0: 0, floats, f0 };
+    let vals = Vals { strings: vec!["s".into()], s0: 0, floats, f0, pose_kind: 0 };
     let p = build(&|_| true, &vals, kind, 0);
     if judge(ctx, &p) {
         ctx.nontrivial();
